@@ -248,6 +248,12 @@ also("C17", "(R-OFFSET-SIBLING) offset normalisers add the length exactly when i
 also("C18", "On the nil-receiver edge every path stores through the receiver; an answer computed from sizes alone is given only for an empty receiver; (R-CONST-INDEX) constant indices into the variadic list are covered by its length tests.")
 also("C19", "In the removal pass the tested register is shifted or refilled on every way round (a fresh bit per element).")
 also("C20", "R-CMP-CHAIN: after a tie the loop takes the next piece.")
+# ---- second sweep (wrong sibling)
+also("C01", "R-RELINK also checks which link is redirected: the one the removed minimum was reached through.")
+also("C07", "(R-WALK-COUNT) the loop of Each/Slice that reads the buffer is bounded by the element count; a do-nothing exit is not keyed on an integer field other than the size.")
+also("C12", "(R-ROW-LENGTH) in LCSFunc a row buffer indexed up to len(x) was allocated from len(x).")
+also("C13", "(R-LR-PAIRING) in New a running position is compared only with the range fields set from it; (R-GUARD-SUBJECT) in AddContext a block guarded by len(v) != 0 uses v; an index is not left without its own bound while another value is held below that field's length.")
+also("C14", "R-CURSOR-SIDE is op-aware: by how much each line counter has moved when control leaves the arm for an opcode (read off the counters' phi edges) is Drop [L+X], Copy [R+Y], Replace [L+X, R+Y], Emit [L+X, R+X]; a span helper is handed two positions of one side; a command line names left first, right last; no span formatter prints the bare end of a half-open range.")
 # ---- eighth round (slips in refactored code)
 also("C01", "The helper that unlinks the in-order successor hands back a node whose small-side child is nil by a dominating branch fact (it is the minimum).")
 also("C04", "R-OK-FORWARD also reports an accessor that returns a lookup's value with the negation of that lookup's ok.")
